@@ -140,6 +140,12 @@ def gen_tasks(tier, seed):
         for oo in ({"allow_empty_paths": True}, {"allow_empty_paths": True, "optimize_with_safe_paths": False}):
             tasks.append({**base, "cls": "kLeastAbsErrors", "edges": arb, "kwargs": {"k": 1, "weight_type": "int", "optimization_options": dict(oo)}})
             tasks.append({**base, "cls": "kMinPathError", "edges": arb, "kwargs": {"k": 2, "weight_type": "int", "optimization_options": dict(oo)}})
+    # a node whose only incoming edge is its own self loop (not a source: walks may not start there), next to a real source;
+    # classes that reject such input are skipped by the check, the error models accept it
+    for name, wes in (("loop_only_incoming", [("s", "t", 1), ("u", "u", 2), ("u", "t", 1)]), ("loop_only_outgoing", [("s", "t", 1), ("s", "v", 1), ("v", "v", 2)])):
+        for cls in ("kLeastAbsErrorsCycles", "kMinPathErrorCycles", "kFlowDecompCycles", "kPathCoverCycles"):
+            kw = {"k": 2} if cls == "kPathCoverCycles" else {"k": 2, "weight_type": "int"}
+            tasks.append({"name": name, "starts": [], "ends": [], "cls": cls, "edges": wes if cls != "kPathCoverCycles" else [(u, v) for (u, v, _f) in wes], "kwargs": kw})
     # node-weighted graphs in which a route is a single node (a node that is both source and sink)
     for name, nodes, es, nf, k in (("one_node", ["a"], [], {"a": 3}, 1), ("two_isolated", ["a", "b"], [], {"a": 3, "b": 2}, 2),
                                    ("edge_plus_isolated", ["a", "b", "c"], [("a", "b")], {"a": 2, "b": 2, "c": 5}, 2)):
